@@ -618,13 +618,13 @@ func runE3(args []string) int {
 		}
 	}
 	rep := map[string]interface{}{
-		"what":           "default schedules replayed against the unmodified proxy binary over real TCP sockets (fake nodes = the same node model); outcome = client byte streams + per-node command multisets",
-		"scenarios":      total,
-		"agree":          agree,
-		"mismatch":       mismatch,
-		"not_confirmed":  unconfirmed,
-		"wall_s":         time.Since(t0).Seconds(),
-		"rows":           rows,
+		"what":            "default schedules replayed against the unmodified proxy binary over real TCP sockets (fake nodes = the same node model); outcome = client byte streams + per-node command multisets",
+		"scenarios":       total,
+		"agree":           agree,
+		"mismatch":        mismatch,
+		"not_confirmed":   unconfirmed,
+		"wall_s":          time.Since(t0).Seconds(),
+		"rows":            rows,
 		"never_a_verdict": true,
 	}
 	b, _ := json.MarshalIndent(rep, "", " ")
